@@ -113,17 +113,20 @@ class Deg:
 
 
 class ListV:
-    def __init__(self, length, default, over=None):
+    def __init__(self, length, default, over=None, extra=None):
         self.length = length  # (a, b)
         self.default = default  # degree vector of a generic element
         self.over = dict(over or {})  # index -> degree vector (exact elements)
+        self.extra = list(extra or [])  # elements at positions that are not tracked
 
     def total(self, skip=None):
         """sum of the element degrees, optionally without one element"""
-        n_over = len(self.over)
+        if self.length[0] == "?":
+            return Top("product over a list of unknown length")
+        n_over = len(self.over) + len(self.extra)
         rest = (self.length[0] - n_over, self.length[1])
         t = vmulN(self.default, rest) if self.default is not None else ({} if rest == (0, 0) else Top("list of unknown elements"))
-        for d in self.over.values():
+        for d in list(self.over.values()) + self.extra:
             t = vadd(t, d)
         if skip is not None:
             if isinstance(skip, int) and skip in self.over:
@@ -140,9 +143,9 @@ class ListV:
                 return self.over[idx]
             if idx < 0 and self.length[1] == 0 and (self.length[0] + idx) in self.over:
                 return self.over[self.length[0] + idx]
-        if self.default is not None:
+        if self.default is not None and not self.extra:
             return self.default
-        vals = list(self.over.values())
+        vals = list(self.over.values()) + self.extra + ([self.default] if self.default is not None else [])
         out = vals[0] if vals else {}
         for v in vals[1:]:
             out = unify(out, v, "elements")
@@ -232,6 +235,8 @@ class Evaluator:
                         return ListV((0, 0), b.default, {}) if False else ListV(b.length, b.default, {})
                     drop = lo + (-hi)
                     over = {i - lo: v for i, v in b.over.items() if i >= lo}
+                    if b.length[0] == "?":
+                        return ListV(b.length, b.elem(), {})
                     return ListV((b.length[0] - drop, b.length[1]), b.default if b.default is not None else b.elem(), over)
                 idx = s.value if isinstance(s, ast.Constant) and isinstance(s.value, int) else None
                 return Deg(b.elem(idx))
@@ -246,8 +251,12 @@ class Evaluator:
         if isinstance(e, ast.BinOp):
             a, b = self.ev(e.left, env), self.ev(e.right, env)
             if isinstance(e.op, ast.Add) and isinstance(a, ListV) and isinstance(b, ListV):
-                n = a.length[0] if a.length[1] == 0 else None
+                n = a.length[0] if a.length[1] == 0 and not a.extra else None
+                if a.length[0] == "?" or b.length[0] == "?":
+                    return ListV(("?", 0), unify(a.elem(), b.elem(), "list elements"), {})
                 if n is None:
+                    if b.length[1] == 0 and b.default is None and b.length[0] == len(b.over):
+                        return ListV((a.length[0] + b.length[0], a.length[1]), a.default, a.over, a.extra + list(b.over.values()))
                     return ListV((a.length[0] + b.length[0], a.length[1] + b.length[1]), unify(a.elem(), b.elem(), "list elements"), {})
                 over = dict(a.over)
                 if a.default is not None:
@@ -306,6 +315,26 @@ class Evaluator:
         it = g.iter
         enum = isinstance(it, ast.Call) and is_name(it.func, "enumerate") and it.args
         src_list = self.ev(it.args[0] if enum else it, env)
+        rng_len = None
+        if isinstance(it, ast.Call) and is_name(it.func, "range") and len(it.args) == 1 and isinstance(it.args[0], ast.Call) and is_name(it.args[0].func, "len") and it.args[0].args and isinstance(it.args[0].args[0], ast.Name):
+            base = env.get(it.args[0].args[0].id)
+            if isinstance(base, ListV) and isinstance(g.target, ast.Name) and isinstance(e.elt, ast.Subscript) and is_name(e.elt.value, it.args[0].args[0].id) and is_name(e.elt.slice, g.target.id):
+                # [L[i] for i in range(len(L)) if i != k]
+                if not g.ifs:
+                    return base
+                c = g.ifs[0]
+                if len(g.ifs) == 1 and isinstance(c, ast.Compare) and len(c.ops) == 1 and isinstance(c.ops[0], ast.NotEq):
+                    k = c.comparators[0]
+                    kk = k.value if isinstance(k, ast.Constant) and isinstance(k.value, int) else None
+                    over = {}
+                    if kk is not None:
+                        over = {(i if i < kk else i - 1): v for i, v in base.over.items() if i != kk}
+                        if base.length[0] == "?":
+                            return ListV(base.length, base.elem(), {})
+                        return ListV((base.length[0] - 1, base.length[1]), base.default, over, base.extra)
+                    if base.length[0] == "?":
+                        return ListV(base.length, base.elem(), {})
+                    return ListV((base.length[0] - 1, base.length[1]), base.default if base.default is not None else base.elem(), {}, [])
         if not isinstance(src_list, ListV):
             # range(...) etc.: a list of unknown length whose elements are evaluated once
             env2 = dict(env)
@@ -319,7 +348,7 @@ class Evaluator:
             # `if i != k`: exactly one element is dropped
             c = g.ifs[0]
             if len(g.ifs) == 1 and enum and isinstance(c, ast.Compare) and len(c.ops) == 1 and isinstance(c.ops[0], ast.NotEq):
-                length = (length[0] - 1, length[1])
+                length = (length[0] - 1, length[1]) if length[0] != "?" else length
                 dropped = True
             else:
                 return ListV(("?", 0), src_list.elem(), {})
@@ -365,6 +394,8 @@ class Evaluator:
                 parts = [v[1].get(k, Other()) for k in v[2]][: len(t.elts)]
                 if len(parts) != len(t.elts):
                     parts = None
+            if parts is None and isinstance(v, Deg):
+                parts = [v] + [Other()] * (len(t.elts) - 1)  # element of zip(list_of_arrays, indices)
             for i, x in enumerate(t.elts):
                 self.bind_target(x, parts[i] if parts is not None else Other(), env)
 
@@ -503,11 +534,20 @@ class Evaluator:
         if isinstance(t, ast.UnaryOp) and isinstance(t.op, ast.Not):
             r = self.decide(t.operand, env)
             return None if r is None else (not r)
+        if isinstance(t, ast.BoolOp):
+            rs = [self.decide(v, env) for v in t.values]
+            if isinstance(t.op, ast.And):
+                if any(r is False for r in rs):
+                    return False
+                return True if all(r is True for r in rs) else None
+            if any(r is True for r in rs):
+                return True
+            return False if all(r is False for r in rs) else None
         if isinstance(t, ast.Compare) and len(t.ops) == 1 and isinstance(t.comparators[0], ast.Constant) and t.comparators[0].value is None and isinstance(t.left, ast.Name):
             v = env.get(t.left.id)
             if isinstance(v, Other) and v.is_none:
                 return isinstance(t.ops[0], (ast.Is, ast.Eq))
-            if isinstance(v, (Deg, ListV)):
+            if isinstance(v, (Deg, ListV)) or (isinstance(v, Other) and v.const is not None):
                 return isinstance(t.ops[0], (ast.IsNot, ast.NotEq))
         if isinstance(t, ast.Call) and is_name(t.func, "isinstance"):
             return False if s.startswith("isinstance(") and ("float" in s or "CPTensor" in s or "int" in s) else None
@@ -531,8 +571,11 @@ class Evaluator:
                     el = self.ev(v.args[0], env) if v.args else Other()
                     if isinstance(lst, ListV) and isinstance(el, (Deg, Other)):
                         d = degree_of(el)
-                        nd = d if lst.default is None and not lst.over else unify(lst.elem(), d, "appended elements")
-                        env[v.func.value.id] = ListV(("?", 0), nd, {})
+                        if lst.length[0] != "?":
+                            env[v.func.value.id] = ListV((lst.length[0] + 1, lst.length[1]), lst.default, lst.over, lst.extra + [d])
+                        else:
+                            nd = d if lst.default is None and not lst.over and not lst.extra else unify(lst.elem(), d, "appended elements")
+                            env[v.func.value.id] = ListV(("?", 0), nd, {})
                 else:
                     self.ev(v, env)
             elif isinstance(s, ast.Assign):
@@ -556,12 +599,12 @@ class Evaluator:
                     v = Deg(v.elem())
                 self.returns.append((s, v, self.n_override))
                 return True
-            elif isinstance(s, ast.Raise):
+            elif isinstance(s, (ast.Raise, ast.Continue, ast.Break)):
                 return True
             elif isinstance(s, ast.If):
                 d = self.decide(s.test, env)
                 saved = self.n_override
-                nfix = _len_test(s.test)
+                nfix = _len_test(s.test, env)
                 if d is True:
                     if self.block(s.body, env):
                         return True
@@ -597,6 +640,11 @@ class Evaluator:
                 env[k] = a if b is None else b
             elif isinstance(a, Deg) and isinstance(b, Deg):
                 env[k] = Deg(unify(a.v, b.v, f"`{k}` after a branch"))
+            elif isinstance(a, ListV) and isinstance(b, ListV):
+                if a.length == b.length and a.default == b.default and a.over == b.over and sorted(map(fmt, a.extra)) == sorted(map(fmt, b.extra)):
+                    env[k] = a
+                else:
+                    env[k] = ListV(("?", 0), unify(a.elem(), b.elem(), f"elements of `{k}` after a branch"), {})
             elif isinstance(a, Deg) or isinstance(b, Deg):
                 da, db = degree_of(a), degree_of(b)
                 env[k] = Deg(unify(da, db, f"`{k}` after a branch"))
@@ -622,9 +670,47 @@ class Evaluator:
             self.returns = saved + [r for r in self.returns[len(saved):]]
             return e
 
+        idx = s.target.elts[0].id if enum and isinstance(s.target, ast.Tuple) and isinstance(s.target.elts[0], ast.Name) else None
+        first, once = {}, {}
+        if idx is not None:
+            for n in ast.walk(s):
+                t = None
+                if isinstance(n, (ast.If, ast.IfExp)):
+                    stack = [n.test]
+                    while stack:
+                        t = stack.pop()
+                        if isinstance(t, ast.BoolOp):
+                            stack.extend(t.values)
+                        elif isinstance(t, ast.UnaryOp) and isinstance(t.op, ast.Not) and is_name(t.operand, idx):
+                            first[src(t)] = (True, False)
+                        elif is_name(t, idx):
+                            first[src(t)] = (False, True)
+                        elif isinstance(t, ast.Compare) and len(t.ops) == 1 and is_name(t.left, idx):
+                            c = t.comparators[0]
+                            if isinstance(c, ast.Constant) and c.value == 0:
+                                eq = isinstance(t.ops[0], ast.Eq)
+                                first[src(t)] = (eq, not eq)
+                            elif isinstance(c, ast.Name) and isinstance(t.ops[0], (ast.Eq, ast.NotEq)):
+                                once[src(t)] = (c.id, isinstance(t.ops[0], ast.Eq))
+        saved_cfg = dict(self.config)
         e0 = dict(env)
+        n_peeled = 0
+        if first and length[0] != "?":
+            for k, (v1, _) in first.items():
+                self.config[k] = v1
+            for k, (nm, eq) in once.items():
+                self.config[k] = not eq
+            e0 = body(e0)  # the first iteration
+            n_peeled = 1
+            for k, (_, v2) in first.items():
+                self.config[k] = v2
+        for k, (nm, eq) in once.items():
+            self.config[k] = not eq  # generic iteration: not the singled-out index
+        rest_len = (length[0] - n_peeled, length[1]) if length[0] != "?" else length
         e1 = body(e0)
         e2 = body(e1)
+        self.config = saved_cfg
+        once_given = [nm for nm, eq in once.values() if not (isinstance(env.get(nm), Other) and env[nm].is_none)]
         for k in set(e1) | set(e0):
             a0, a1, a2 = e0.get(k), e1.get(k), e2.get(k)
             if isinstance(a1, Deg) and isinstance(a2, Deg):
@@ -642,12 +728,31 @@ class Evaluator:
                 if inc1 == inc2:
                     if not inc1:
                         env[k] = a1
-                    elif length[0] == "?":
+                    elif rest_len[0] == "?":
                         env[k] = Deg(Top(f"`{k}` accumulates degree over a loop of unknown length"))
                     else:
-                        env[k] = Deg(vadd(d0, vmulN(inc1, length)))
+                        tot = vadd(d0, vmulN(inc1, rest_len))
+                        if once_given and once:
+                            tot = vadd(tot, inc1, -1)  # the singled-out iteration does not contribute
+                        env[k] = Deg(tot)
                 else:
                     env[k] = Deg(Top(f"`{k}` changes degree irregularly in a loop"))
+            elif isinstance(a0, ListV) and isinstance(a1, ListV) and isinstance(a2, ListV) and a0.length[0] != "?" and a1.length[0] != "?" and a2.length[0] != "?":
+                # a list that grows by one element of constant degree per iteration
+                g1 = (a1.length[0] - a0.length[0], a1.length[1] - a0.length[1])
+                g2 = (a2.length[0] - a1.length[0], a2.length[1] - a1.length[1])
+                new1, new2 = a1.extra[len(a0.extra):], a2.extra[len(a1.extra):]
+                if g1 == g2 == (1, 0) and len(new1) == 1 and len(new2) == 1 and new1[0] == new2[0] and rest_len[0] != "?":
+                    d = new1[0]
+                    if (a0.default is None or a0.default == d):
+                        n_it = (rest_len[0] - (1 if (once_given and once) else 0), rest_len[1])
+                        env[k] = ListV((a0.length[0] + n_it[0], a0.length[1] + n_it[1]), d, a0.over, a0.extra)
+                    else:
+                        env[k] = ListV(("?", 0), unify(a0.elem(), d, f"elements appended to `{k}`"), {})
+                elif g1 == g2 == (0, 0):
+                    env[k] = a1
+                else:
+                    env[k] = ListV(("?", 0), a2.elem(), {})
             elif a1 is not None:
                 env[k] = a1
 
@@ -660,9 +765,17 @@ def _int_const(e) -> Optional[int]:
     return None
 
 
-def _len_test(t) -> Optional[int]:
+def _len_test(t, env=None) -> Optional[int]:
+    """`len(x) == k`: the number of factors N this fixes (x has a + b*N elements)"""
     if isinstance(t, ast.Compare) and len(t.ops) == 1 and isinstance(t.ops[0], ast.Eq) and isinstance(t.left, ast.Call) and is_name(t.left.func, "len") and isinstance(t.comparators[0], ast.Constant) and isinstance(t.comparators[0].value, int):
-        return t.comparators[0].value
+        k = t.comparators[0].value
+        a0 = t.left.args[0] if t.left.args else None
+        if env is not None and isinstance(a0, ast.Name) and isinstance(env.get(a0.id), ListV):
+            a, b = env[a0.id].length
+            if a != "?" and b != 0 and (k - a) % b == 0:
+                return (k - a) // b
+            return None
+        return k
     return None
 
 
@@ -709,6 +822,25 @@ SPECS = [
     ("tensorly.parafac2_tensor.parafac2_to_slice", {"parafac2_tensor": ("tuple", [Deg({"W": ONE}), ("tuple", [Deg({"A": ONE}), Deg({"B": ONE}), Deg({"C": ONE})]), ListV(N, {"P": ONE}, {})]), "validate": Other(False)}, {"W": ONE, "A": ONE, "B": ONE, "C": ONE, "P": ONE}, ()),
     ("tensorly.parafac2_tensor.parafac2_to_slice", {"parafac2_tensor": ("tuple", [Other(None, True), ("tuple", [Deg({"A": ONE}), Deg({"B": ONE}), Deg({"C": ONE})]), ListV(N, {"P": ONE}, {})]), "validate": Other(False)}, {"A": ONE, "B": ONE, "C": ONE, "P": ONE}, ()),
 ]
+
+
+NONE_ = Other(None, True)
+for _be in ("core", "einsum"):
+    _kr = f"tensorly.tenalg.{_be}_tenalg._khatri_rao.khatri_rao"
+    _kn = f"tensorly.tenalg.{_be}_tenalg._kronecker.kronecker"
+    _mm = f"tensorly.tenalg.{_be}_tenalg.n_mode_product.multi_mode_dot"
+    _md = f"tensorly.tenalg.{_be}_tenalg.n_mode_product.mode_dot"
+    SPECS += [
+        (_kr, {"matrices": F(), "weights": NONE_, "skip_matrix": NONE_, "mask": NONE_}, {"F": N}, ()),
+        (_kr, {"matrices": F(), "weights": Deg({"W": ONE}), "skip_matrix": NONE_, "mask": NONE_}, {"F": N, "W": ONE}, ()),
+        (_kr, {"matrices": F(), "weights": NONE_, "skip_matrix": NONE_, "mask": Deg({"M": ONE})}, {"F": N, "M": ONE}, ()),
+        (_kr, {"matrices": F(), "weights": Deg({"W": ONE}), "skip_matrix": Other(1), "mask": Deg({"M": ONE})}, {"F": (-1, 1), "W": ONE, "M": ONE}, ()),
+        (_kn, {"matrices": F(), "skip_matrix": NONE_}, {"F": N}, ()),
+        (_kn, {"matrices": F(), "skip_matrix": Other(1)}, {"F": (-1, 1)}, ()),
+        (_mm, {"tensor": Deg({"X": ONE}), "matrix_or_vec_list": F(), "modes": NONE_, "skip": NONE_}, {"X": ONE, "F": N}, ()),
+        (_mm, {"tensor": Deg({"X": ONE}), "matrix_or_vec_list": F(), "modes": NONE_, "skip": Other(1)}, {"X": ONE, "F": (-1, 1)}, ()),
+        (_md, {"tensor": Deg({"X": ONE}), "matrix_or_vector": Deg({"F": ONE})}, {"X": ONE, "F": ONE}, ()),
+    ]
 
 
 def run_homogeneity(ctx: Ctx, rule="HOMOGENEITY", only_modules=None):
